@@ -966,6 +966,12 @@ def check_program_prop(ctx):
         pe = run_engine_p(ctx, pg, prop, emit_args=["--pairs", "80"], features=("events",))
         p["under_events"] = {k: pe[k] for k in ("jobs", "reject_ok", "accept_ok", "pairs_ok")}
         p["jobs"] += pe["jobs"]
+        # ... and the whole corpus against gecs built with `32_components` (the storage / iterator /
+        # view types are instantiated by other macro invocations there; auto traits of worlds,
+        # archetypes and iterators must not depend on the feature)
+        pw = run_engine_p(ctx, pg, prop, emit_args=["--pairs", "100000"], features=("32_components",))
+        p["under_32_components"] = {k: pw[k] for k in ("jobs", "reject_ok", "accept_ok", "pairs_ok")}
+        p["jobs"] += pw["jobs"]
     nontrivial = len(m["hashes"]) + p["pairs_ok"] + (p["run_ok"] if prop != "C18" else 0)
     cov = {
         "evaluations": m["world_checks"] + m["query_checks"] + p["jobs"],
@@ -983,8 +989,44 @@ def check_program_prop(ctx):
     write_evidence(ctx, "exploration", cov, PROG_ASSUMPTIONS)
 
 
+def c17_max_archetypes(ctx, bins, cov):
+    """The world-level event iterators walk the archetypes with a cursor: at the maximum of 256
+    archetypes they must still yield exactly the union (no fixed harness world is that large, so a
+    generated client program is compiled without optimisation - overflow checks and debug assertions
+    on - and run against gecs built with `events`)."""
+    import farm
+    rlib, deps = farm.build_gecs(("events",))
+    work = os.path.join(VERIF, ".work", "C17-p-%d" % os.getpid())
+    shutil.rmtree(work, ignore_errors=True)
+    os.makedirs(work)
+    try:
+        src, expected = _archs256_program()
+        with open(os.path.join(work, "events_256.rs"), "w") as f:
+            f.write(src)
+        with open(os.path.join(work, "events_256.expect"), "w") as f:
+            f.write(expected)
+        jobs = [{"id": "C17-events_256", "kind": "run", "file": "events_256.rs", "flags": [], "expect": "events_256.expect", "note": "256 archetypes, features ['events']"}]
+        res = farm.run_jobs(jobs, work, rlib, deps)
+        for r in res:
+            if r["status"] in ("violation", "twin-rejected"):
+                dst = os.path.join(found_dir("C17"), r["id"])
+                os.makedirs(dst, exist_ok=True)
+                shutil.copyfile(os.path.join(work, r["file"]), os.path.join(dst, r["file"]))
+                shutil.copyfile(os.path.join(work, "events_256.expect"), os.path.join(dst, "events_256.expect"))
+                with open(os.path.join(dst, "job.json"), "w") as f:
+                    json.dump({"job": jobs[0]}, f)
+                report_failure(ctx, "events-256-archetypes", dst, "world-level event iterators over a world of 256 archetypes (created in the first, the last and one in the middle, one destroyed): %s" % r.get("why", ""))
+        cov["max_archetypes_program"] = {"archetypes": 256, "status": [r["status"] for r in res]}
+    finally:
+        shutil.rmtree(work, ignore_errors=True)
+
+
 def check_c17(ctx):
-    check_history(ctx, features=("events",))
+    if ctx.replay and os.path.isdir(ctx.replay):
+        r = replay_program_dir(ctx, ctx.replay, features=("events",))
+        write_evidence(ctx, "exploration", {"evaluations": 1, "distinct_nontrivial": 2, "rule": "replay of one saved program", "samples": [r.get("file", "")]}, PROG_ASSUMPTIONS)
+        return
+    check_history(ctx, features=("events",), extra_step=c17_max_archetypes)
 
 
 C19_RULE = ("configurations = all 8 subsets of {events, 32_components, wrapping_version} x {debug assertions on (chk), off (rel)}; in each, the same seeded mixed histories (oracles of C01 C02 C04 C06 C07 C08 C09 C12 C13 C14, event oracles where the feature exists, WWide with 17- and 32-component archetypes where available) must pass every oracle, and the trace of what the oracles are lenient about (handles issued, capacity after every step, iteration order, dense indices, acceptance of direct handles after creations only) must be identical across all 16 builds for every history (no history of this profile crosses a generation boundary or forges handles); the wrapping_version builds additionally run boundary-crossing histories (generation presets); documented deltas are checked by compiling fixed client programs under each feature set (event API exists iff events; 17- and 32-component archetypes compile iff 32_components; 16 components always); "
